@@ -83,7 +83,7 @@ func init() {
 		"sync/atomic.AddInt64":                iAtomicAdd,
 		"sync/atomic.CompareAndSwapInt32":     iAtomicCAS,
 		"sync/atomic.CompareAndSwapUint32":    iAtomicCAS,
-		"github.com/lucasb-eyer/go-colorful.Color.DistanceCIE76": nil,
+		"(github.com/lucasb-eyer/go-colorful.Color).DistanceCIE76": iDistanceCIE76,
 	}
 	for k, v := range intrinsics {
 		if v == nil {
@@ -1052,4 +1052,45 @@ func iInf(ex *Exec, st *State, fr *Frame, dst ssa.Value, args []Value) {
 	} else {
 		ex.ret(fr, dst, mkFP(math.Inf(-1)))
 	}
+}
+
+// fpIntKey: an argument of the form float64(int)/const is represented by the
+// integer (exact: x/255.0 is injective on int32), which keeps FP division out
+// of the congruence reasoning for the uninterpreted distance.
+func fpIntKey(t *Term) *Term {
+	if t.op == OpFDiv && t.args[1].op == OpConst && (t.args[0].op == OpFFromSBV || t.args[0].op == OpFFromUBV) {
+		return mkSext(t.args[0].args[0], 64)
+	}
+	if t.op == OpConst {
+		return mkBV(64, t.val)
+	}
+	return nil
+}
+
+// DistanceCIE76 is an uninterpreted Float64 function of the two colours when an
+// argument is symbolic (C16: FindColor is optimal for whatever the library
+// returns); with concrete colours the real code runs.
+func iDistanceCIE76(ex *Exec, st *State, fr *Frame, dst ssa.Value, args []Value) {
+	a, b := args[0].(*StructV), args[1].(*StructV)
+	allConst := true
+	var keys []*Term
+	for _, sv := range []*StructV{a, b} {
+		for _, f := range sv.f {
+			t := f.(*Term)
+			if !t.IsConst() {
+				allConst = false
+			}
+			k := fpIntKey(t)
+			if k == nil {
+				k = mkUF("fpbits", SBV(64), t)
+			}
+			keys = append(keys, k)
+		}
+	}
+	if allConst {
+		fn := ex.P.lookupMethod(ex.P.pkgs["github.com/lucasb-eyer/go-colorful"].Type("Color").Type(), "DistanceCIE76")
+		ex.pushCall(st, fn, args, nil, nil)
+		return
+	}
+	ex.ret(fr, dst, mkUF("cie76", SFP, keys...))
 }
